@@ -9,7 +9,7 @@
    explained s  : V died inside one of the listed windows, or a poll consumed the message and raised. *)
 From Coq Require Import List Bool Arith.
 Import ListNotations.
-From PV Require Import Model.Status Model.Crash Model.CrashSpec gen.CrashProgs_gen Proofs.CrashProofs.
+From PV Require Import Model.Status Model.Crash Model.CrashSpec gen.CrashProgs_gen Proofs.CrashProofs Model.Pool gen.PoolIds_gen.
 
 (* The full statement — FALSE for this tree, see crash_windows_refuted. *)
 Definition never_stranded : Prop := forall s, reach gstep s -> can_finish gstep s.
@@ -42,6 +42,13 @@ Print Assumptions crash_windows_refuted.
 Theorem stranded_decidable : forall s, reach gstep s -> can_finish gstep s \/ ~ can_finish gstep s.
 Proof. exact can_finish_decidable. Qed.
 Print Assumptions stranded_decidable.
+
+(* "held by a runner whose death recovery will notice": in the machine a dead victim sends no more heartbeats, so the running-recovery
+   role is enabled for what it left RUNNING.  For worker processes that evidence comes from their parent, keyed by runner id: a
+   replacement worker must therefore never be tracked under the id of the worker it replaces (generated from the spawn code of
+   the three process runners; C14 carries the pool machine and the refutation for recycled ids). *)
+Theorem dead_worker_ids_are_never_reused : mtr_id_src = IdFresh /\ ppr_id_src = IdFresh /\ pr_id_src = IdFresh.
+Proof. exact (conj eq_refl (conj eq_refl eq_refl)). Qed.
 
 (* non-vacuity: a crash while RUNNING (the window recovery was built for) recovers; a crash right after the pop does not *)
 Example c03_running_crash_recovers :
